@@ -6,7 +6,7 @@ W="$1"; export GOFLAGS=-mod=mod GOPROXY=off; unset GOTOOLCHAIN GOSUMDB
 cd "$W" || exit 2
 [ -f SEED/patch.diff ] || { echo "no SEED/patch.diff"; exit 2; }
 DEMO=leader/seed_demo_test.go
-[ -f $DEMO ] || cp SEED/seed_demo_test.go $DEMO
+[ -f $DEMO ] || cp SEED/seed_demo_test.go.txt $DEMO
 git checkout -q -- leader internal 2>/dev/null
 git apply SEED/patch.diff || { echo "PATCH DOES NOT APPLY"; exit 2; }
 mv $DEMO /tmp/$(basename $W)_demo.go
